@@ -319,11 +319,11 @@ CLS_ORDER = ["plain", "lt", "amp", "quot", "apos", "rbr", "gt", "ws", "c0", "c0w
              "fffe", "astral", "nonascii"]      # = ClsOrder of XmlEscape_Trace.tla (bit k of the mask)
 
 
-def judge(chk, rows, chunks=8):
+def judge(chk, rows, chunks=6):
     """TLC judges; returns ({id: [VERDICT..]}, {id: [INFO..]}); a lost VERDICT line is a machinery failure"""
     from vlib.tlc import TlcError
     first = len(chk.tlc_runs)
-    got = trace.judge_rows(chk, "XmlEscape_Trace", rows, chunks=chunks, min_chunk=5000)
+    got = trace.judge_rows(chk, "XmlEscape_Trace", rows, chunks=chunks, min_chunk=8000)
     infos = {}
     for module, cfg, r in chk.tlc_runs[first:]:
         done = r.by_tag("DONE")
@@ -377,7 +377,7 @@ def run_xml(chk, workers=16, procs=None):
     sampled = 0
     for n in sorted({len(s) for s in strings if len(s) > full_upto}):
         pool = [s for s in strings if len(s) == n]
-        take = (600 if n == 4 else 0) if chk.quick() else (30000 if n == 4 else 6000)
+        take = (300 if n == 4 else 0) if chk.quick() else (30000 if n == 4 else 6000)
         pick = sorted(rnd.sample(pool, min(take, len(pool))))
         sampled += len(pick)
         chosen += pick
